@@ -52,6 +52,17 @@ fn base(pl: &[(Leaf, &'static str)]) -> Model<'static> {
     }
     m
 }
+/// the base workbook plus Sheet2 (used area LARGER than Sheet1's: 60 rows, 40 columns) and Sheet3 (smaller: A1:B3),
+/// for the full-column / full-row range programs
+fn base_multi(pl: &[(Leaf, &'static str)]) -> Model<'static> {
+    let mut m = base(pl);
+    m.new_sheet(); m.new_sheet();
+    let n = pl.len();
+    for r in 1..=60 { if r % 7 != 3 { place(&mut m, 1, r, 1, &pl[(r as usize * 5) % n].0); } if r % 3 == 0 { place(&mut m, 1, r, 2, &pl[(r as usize) % 8].0); } }
+    for c in 3..=40 { if c % 5 != 1 { place(&mut m, 1, 1, c, &pl[(c as usize * 3) % 8].0); } if c % 4 == 0 { place(&mut m, 1, 2, c, &pl[(c as usize) % n].0); } }
+    for (r, c, i) in [(1, 1, 1usize), (2, 1, 3), (3, 1, 5), (1, 2, 8), (3, 2, 20)] { place(&mut m, 2, r, c, &pl[i].0); }
+    m
+}
 fn literal(l: &Leaf) -> Option<String> {
     Some(match l {
         Leaf::Num(f) => if *f == 0.0 && f.is_sign_negative() { return None } else if *f < 0.0 { return None } else { format!("{}", f) },
@@ -80,14 +91,14 @@ const FN2: [&str; 12] = ["IF", "IFERROR", "ROUND", "SUM", "MIN", "MAX", "COUNT",
 
 struct Ctx<'a> {
     cs: Cases, pl: Vec<(Leaf, &'static str)>, m: Model<'a>, skipped: BTreeMap<String, u64>, dist: BTreeMap<String, u64>,
-    nontrivial: BTreeSet<String>, samples: Vec<String>, strings: BTreeSet<String>, panics: u64,
+    nontrivial: BTreeSet<String>, samples: Vec<String>, strings: BTreeSet<String>, panics: u64, multi: bool,
 }
 impl<'a> Ctx<'a> {
     fn skip(&mut self, why: &str) { *self.skipped.entry(why.to_string()).or_insert(0) += 1; }
     /// one program: formula text entered as a normal input (cse = None) or as a CSE formula over w x h
     fn program(&mut self, kind: &str, formula: &str, cse: Option<(i32, i32)>) {
         let r = std::panic::catch_unwind(std::panic::AssertUnwindSafe(|| self.program_inner(kind, formula, cse)));
-        if r.is_err() { self.panics += 1; self.m = base(&self.pl); }
+        if r.is_err() { self.panics += 1; self.m = if self.multi { base_multi(&self.pl) } else { base(&self.pl) }; }
     }
     fn program_inner(&mut self, kind: &str, formula: &str, cse: Option<(i32, i32)>) {
         if cse.is_some() { self.m = base(&self.pl); }
@@ -163,7 +174,7 @@ fn main() {
     }
     let pl = pool();
     let mut cx = Ctx { cs: Cases::new(&a.out, "c06"), m: base(&pl), pl: pl.clone(), skipped: BTreeMap::new(), dist: BTreeMap::new(),
-                       nontrivial: BTreeSet::new(), samples: vec![], strings: BTreeSet::new(), panics: 0 };
+                       nontrivial: BTreeSet::new(), samples: vec![], strings: BTreeSet::new(), panics: 0, multi: false };
     let n = pl.len();
     // ---- bounded-exhaustive, depth <= 2 ----
     // (1) every binary operator x every ordered pair of pool cells (as references)
@@ -222,6 +233,16 @@ fn main() {
             cx.program("exh_cse", &format!("={}{}{}", x, o, y), Some((2, 2)));
         }
     } } } }
+    // (9) full-column / full-row ranges as aggregate arguments: same sheet, a LARGER other sheet, a SMALLER other sheet
+    cx.multi = true; cx.m = base_multi(&pl);
+    for f in ["SUM", "MIN", "MAX", "COUNT", "COUNTA", "AVERAGE", "AND", "OR", "CONCAT"] {
+        for r in ["A:A", "40:40", "A:B", "39:40", "Sheet2!A:A", "Sheet2!1:1", "Sheet2!A:B", "Sheet2!1:2", "Sheet2!B:B", "Sheet3!A:A", "Sheet3!1:1", "Sheet3!2:3", "Sheet3!A:B"] {
+            cx.program("exh_full_ranges", &format!("={f}({r})"), None);
+            cx.program("exh_full_ranges", &format!("={f}({r},A2)"), None);
+            cx.program("exh_full_ranges", &format!("={f}(A4,{r})"), None);
+        }
+    }
+    cx.multi = false; cx.m = base(&pl);
     let exhaustive_cases = cx.cs.n;
     // ---- random, depth 3-5 ----
     let mut rng = Rng::new(a.seed);
